@@ -108,6 +108,10 @@ def ref_tokens(text, state, last, cdata, compat=frozenset(), transitions=None):
     return toks
 
 
+BEFORE = ["<svg><text>x\x00y</text></svg>", "<math>\x00", "<svg>\x00</svg><p>\x00", "<title>a</title x=y>", "<textarea>\x00</textarea a=b>", "<svg><![CDATA[\x00]]>", "<p a=1 a=2>",
+          "<table>\x00<tr>\x00", "<select>\x00", "<!DOCTYPE html PUBLIC \"\" \"\">", "<script>\x00</script>", "<plaintext>\x00", "<frameset>\x00", "<svg><desc>\x00<p>\x00"]
+
+
 class _ShortReads(object):
     def __init__(self, text, reads):
         self.text, self.reads, self.pos, self.k = text, reads, 0, 0
@@ -143,7 +147,21 @@ def check_case(case, want_transitions=None):
     nontrivial = not (len(want) <= 2 and (len(want) == 1 or want[0][0] == "chars"))
     try:
         src = text
-        if case.get("reads"):
+        if case.get("before") is not None:
+            # tokens are plain dicts that their consumer may modify: whatever a tree builder did to the tokens of an EARLIER document
+            # (html5lib.parse in this process) must not show in what the tokenizer emits for this one
+            try:
+                import html5lib
+                html5lib.parse(case["before"])
+                html5lib.parseFragment(case["before"], container="svg")
+            except Exception:
+                pass
+        if case.get("skip"):
+            # an io.StringIO the caller has already read a preamble from: the input is what is still unread
+            import io
+            src = io.StringIO(case["skip"] + text)
+            src.read(len(case["skip"]))
+        elif case.get("reads"):
             # the same characters through a text stream that returns short reads (the tokenizer must not care how its input arrives)
             src = _ShortReads(text, case["reads"])
         got = h5.tokenize(src, state, last, h5_cdata)
@@ -283,11 +301,17 @@ def run_shard(desc, seed, tier):
                                       st.sampled_from(["<a b=", "<a b='", "'>", ">", "x", " ", "<p title=\""])), min_size=1, max_size=6).map("".join)
         strat = st.tuples(st.one_of(soup.soup_text(max_items=25).map(lambda t: t[1]), st.text(max_size=30),
                                     st.lists(st.sampled_from(ALPHA), max_size=12).map("".join), ent_text),
-                          _cfg_strategy(), st.one_of(st.none(), st.none(), st.lists(st.integers(1, 7), min_size=1, max_size=6)))
+                          _cfg_strategy(), st.one_of(st.none(), st.none(), st.lists(st.integers(1, 7), min_size=1, max_size=6)),
+                          st.one_of(st.none(), st.none(), st.none(), st.sampled_from(BEFORE), soup.soup_text(max_items=10).map(lambda t: t[1])),
+                          st.one_of(st.none(), st.none(), st.none(), st.sampled_from(["<!--skipped-->\n", "x", "<?xml version='1.0'?>\n", "\ufeff", "<p>", "&am"])))
 
         def fn(x):
-            text, (state, last, cdata), reads = x
+            text, (state, last, cdata), reads, before, skip = x
             case = {"text": text, "state": state, "last": last, "cdata": cdata}
+            if before is not None:
+                case["before"] = before
+            if skip:
+                case["skip"] = skip
             if reads:
                 case["reads"] = reads
             one(case)
